@@ -200,7 +200,7 @@ mod __verif_c05s {
         Expr::UnaryExpr { op: UnaryOp::Not, expr: Box::new(e) }
     }
 
-    // @harness tiers=quick,thorough timeout=900
+    // @harness tiers=thorough timeout=2400
     // @encodes storage::row_group_pruning::row_group_might_match, storage::row_group_pruning::row_group_definitely_matches (NOT arm)
     // @bounds as leaf_comparison_full_path; predicate = NOT (c op lit), literal BIGINT or DOUBLE
     // @oracle Kleene NOT of the leaf's three-valued truth (NOT NULL is NULL: a NULL row is not kept)
@@ -215,7 +215,7 @@ mod __verif_c05s {
         std::mem::forget(w);
     }
 
-    // @harness tiers=quick,thorough timeout=900
+    // @harness tiers=thorough timeout=2400
     // @encodes storage::row_group_pruning::row_group_might_match, storage::row_group_pruning::row_group_definitely_matches (AND arm)
     // @bounds as leaf_comparison_full_path; predicate = (c op1 lit1) AND (c op2 lit2), literals BIGINT or DOUBLE
     // @oracle Kleene AND of the leaves' three-valued truths
@@ -230,7 +230,7 @@ mod __verif_c05s {
         std::mem::forget(w);
     }
 
-    // @harness tiers=quick,thorough timeout=900
+    // @harness tiers=thorough timeout=2400
     // @encodes storage::row_group_pruning::row_group_might_match, storage::row_group_pruning::row_group_definitely_matches (OR arm)
     // @bounds as and_of_two_comparisons with OR
     // @oracle Kleene OR
@@ -245,7 +245,7 @@ mod __verif_c05s {
         std::mem::forget(w);
     }
 
-    // @harness tiers=quick,thorough timeout=900
+    // @harness tiers=thorough timeout=2400
     // @encodes storage::row_group_pruning::row_group_might_match, storage::row_group_pruning::row_group_definitely_matches (NOT over AND / OR)
     // @bounds predicate = NOT (leaf AND leaf) or NOT (leaf OR leaf) (connective symbolic), BIGINT literals
     // @oracle Kleene NOT / AND / OR
@@ -289,7 +289,7 @@ mod __verif_c05s {
         std::mem::forget(w);
     }
 
-    // @harness tiers=quick,thorough timeout=900
+    // @harness tiers=thorough timeout=2400
     // @encodes storage::row_group_pruning::row_group_might_match, storage::row_group_pruning::row_group_definitely_matches (IN arm)
     // @bounds predicate = c [NOT] IN (x, y), BIGINT literals
     // @oracle IN = (c = x OR c = y) in three-valued logic; NOT IN negates
